@@ -311,17 +311,24 @@ def complaints_without_fill(op: dict, obs: dict, unsendable: bool) -> set[str]:
     return out
 
 
-def signature(op: dict, obs: dict, complaint: str) -> str:
-    """placement kind x combination arithmetic of the dropped example (Appendix E); other complaints: the slice."""
+def signature(op: dict, obs: dict, complaint: str, any_arith: set | None = None) -> str:
+    """placement kind x combination arithmetic of the dropped example (Appendix E); other complaints: the slice.
+    `any_arith`: placement keys whose example is dropped even when it is the only pool - the arithmetic is then not a feature."""
     if complaint == "dropped":
         d = dropped(op, obs)
         if d:
             e = d[0]
             pools = [sum(len(x["vals"]) for x in p["ex"]) for p in op["params"]] + [sum(len(x["vals"]) for x in b["ex"]) for b in op["bodies"]]
-            arith = "pool=%d/max=%d" % (e["pool"], max(pools))
-            return "C17:dropped:%s:%s/%s:%s:%s:%s" % (obs["mode"], e["place"], e["form"], e["kind"], arith,
-                                                        "swagger2" if op["dialect"] == "2.0" else "openapi3")
-    return "C17:%s:%s:%s:%s" % (complaint, obs["mode"], op["slice"], "swagger2" if op["dialect"] == "2.0" else "openapi3")
+            others = sum(1 for n in pools if n) - 1
+            arith = "alone" if others == 0 else ("smaller-pool" if e["pool"] < max(pools) else "largest-pool")
+            key = "%s/%s:%s" % (e["place"], e["form"], "body" if e["kind"] == "body" else "parameter")
+            dia = "swagger2" if op["dialect"] == "2.0" else "openapi3"
+            if any_arith is not None and (key, dia) in any_arith:
+                arith = "any"
+            elif any_arith is None and arith == "alone":
+                arith = "any"
+            return "C17:dropped:%s:%s:%s" % (key, arith, dia)
+    return "C17:%s:%s:%s" % (complaint, op["slice"], "swagger2" if op["dialect"] == "2.0" else "openapi3")
 
 
 def _short(op: dict) -> str:
@@ -397,11 +404,20 @@ def run(ctx: Ctx) -> Outcome:
             mismatch.append((j, sorted(mine), sorted(theirs)))
     if mismatch:
         raise tlc.TLCFailure("judge (TLC) and exporter disagree on %d observations - machinery inconsistency: %s" % (len(mismatch), mismatch[:5]))
+    any_arith = set()
     for j, (i, o) in enumerate(records, 1):
-        for c in sorted(by_obs.get(j, ())):
+        if "dropped" in by_obs.get(j, ()):
+            sig = signature(ops[i], o, "dropped").split(":")
+            if sig[-2] == "any":
+                any_arith.add((":".join(sig[2:-2]), sig[-1]))
+    for j, (i, o) in enumerate(records, 1):
+        found = by_obs.get(j, set())
+        if "dropped" in found:
+            found = found - {"skipped-with-examples"}  # nothing extracted at all: the same finding, seen from the report side
+        for c in sorted(found):
             d = dropped(ops[i], o) if c == "dropped" else []
             out.violations.append(Violation(
-                signature(ops[i], o, c),
+                signature(ops[i], o, c, any_arith),
                 "%s (%s path, status=%s): %s%s; sent %s" % (
                     c, o["mode"], o["status"], _short(ops[i]),
                     " dropped " + json.dumps([{"%s:%s%s" % (e["kind"], uncps(e["name"]), "".join("/" + (uncps(s["name"]) if s["k"] == "prop" else "*") for s in e["path"])): decode_value(e["v"])} for e in d[:3]]) if d else "",
